@@ -85,4 +85,9 @@ CONFIG = {
         "thorough": {'checks': 300000, 'shards': 14, 'timeout': 3600, 'shrinktime': '60s'},
         "assumptions": ['a return inside a block body is not generated', "'return nil' is generated only as the sole return of a template", 'a range stops after an iteration that executed a return (pinned by the existing suite)'],
     },
+    'C13': {
+        "quick": {'checks': 10000, 'shards': 4, 'timeout': 900},
+        "thorough": {'checks': 500000, 'shards': 14, 'timeout': 3600, 'shrinktime': '60s'},
+        "assumptions": ['try bodies never assign variables declared outside the try (value rollback is unspecified)', 'the text of the caught error is never printed (only isset of the catch variable)'],
+    },
 }
